@@ -19,6 +19,8 @@ def bind_family(chk, wd, binp, rnd, thorough):
     """Bind.tla as oracle: bindings, closures, scopes, TDZ, per-iteration environments x 14 compiler-decision rewrites."""
     n = 12000 if thorough else 800
     progs = [bindgen.random_program(i, rnd, 2 + i % 3) for i in range(n)]
+    # focused family: one class hierarchy per program (constructor shapes, this before / without / after super(), members, statics)
+    progs += [bindgen.class_program(n + i, rnd) for i in range(n // 4)]
     with phase(chk, "bind-oracle"):
         want = oracle.bind_eval(progs, wd, "b")
     live = [p for p in progs if want[p["id"]]["ty"] != "fuel"]
